@@ -67,24 +67,34 @@ def family(ctx):
 def per_read_classes(ctx):
     """classes all of whose construction sites are inside read()/filter()/evaluate() bodies and whose instances are
     not stored on self there (nested classes of such methods included)."""
+    cached = getattr(ctx, "_per_read", None)
+    if cached is not None:
+        return cached
     m = ctx.model
     out = set()
     for c in m.classes:
         if "." in c.qual and any(seg in ("read", "filter", "evaluate") for seg in c.qual.split(".")[:-1]):
             out.add(c.key)
+    sites = {}
+    for rel, qual, fn in m.all_functions():
+        mod = m.module(rel)
+        scope = qual.rpartition(".")[0]
+        for x in walk_shallow(fn):
+            if isinstance(x, ast.Call) and isinstance(x.func, (ast.Name, ast.Attribute)):
+                d = dotted_name(x.func)
+                if d is None or not d.split(".")[-1][:1].isupper():
+                    continue
+                res = m.resolve_in(mod, x.func, scope)
+                if res in m.class_index:
+                    sites.setdefault(res, []).append((rel, qual, x))
     for c in m.classes:
         if c.key in out:
             continue
-        sites = []
-        for rel, qual, fn in m.all_functions():
-            for x in walk_shallow(fn):
-                if isinstance(x, ast.Call):
-                    res = m.resolve_in(m.module(rel), x.func, qual.rpartition(".")[0])
-                    if res == c.key:
-                        sites.append((rel, qual, x))
-        if sites and all(q.split(".")[-1] in ("read", "filter", "_results", "evaluate") or ".read." in q or ".filter." in q for _, q, _ in sites):
-            if not any(isinstance(parent(x), ast.Assign) and any(is_self_attr(t) for t in parent(x).targets) for _, _, x in sites):
+        ss = sites.get(c.key, [])
+        if ss and all(q.split(".")[-1] in ("read", "filter", "_results", "evaluate") or ".read." in q or ".filter." in q for _, q, _ in ss):
+            if not any(isinstance(parent(x), ast.Assign) and any(is_self_attr(t) for t in parent(x).targets) for _, _, x in ss):
                 out.add(c.key)
+    ctx._per_read = out
     return out
 
 
